@@ -28,6 +28,8 @@ import z3  # noqa: E402
 from symx import arrays, core, facade  # noqa: E402
 from symx.core import Sym, is_sym  # noqa: E402
 
+core.REPO_PATH = os.path.realpath(REPO)
+
 warnings.filterwarnings("ignore")
 
 
@@ -254,6 +256,18 @@ def _unjson(x):
 
 def run_replay(h, inputs, label, params):
     """real seeds first; then the solver's draws through a scripted RandomState"""
+    if label.startswith("unexpected_exception:"):
+        want = label.split(":", 1)[1]
+        try:
+            rep, detail = h.replay(inputs, label, **params)
+            if rep:
+                return rep, detail
+        except Exception as e:
+            if type(e).__name__ == want and core._innermost_repo_frame(e) is not None:
+                return True, (f"{h.name}{params}: the real code raised {e!r} at {core._innermost_repo_frame(e)} on inputs "
+                              f"{ {k: v for k, v in inputs.items() if not k.startswith('__')} }")
+            raise
+        return False, "the exception did not reproduce"
     rep, detail = h.replay(inputs, label, **params)
     if rep or not inputs.get("__rng__"):
         return rep, detail
@@ -683,13 +697,14 @@ class Dual:
         self.violated = {}
         self.np = facade.FACADE if self.sym else np
 
-    def fl(self, name, lo=None, hi=None, nan=False):
+    def fl(self, name, lo=None, hi=None, nan=False, inf=False):
         if self.sym:
-            x = core.fresh_float(name, nan=nan)
+            x = core.fresh_float(name, nan=nan, inf=inf)
+            tagged = core.b_or(x.nan, x.pinf, x.ninf)
             if lo is not None:
-                self.c.assume(core.b_or(x.nan, x.r >= lo))
+                self.c.assume(core.b_or(tagged, x.r >= lo))
             if hi is not None:
-                self.c.assume(core.b_or(x.nan, x.r <= hi))
+                self.c.assume(core.b_or(tagged, x.r <= hi))
             rec(self.c, name, x)
             return x
         return float(self.inputs.get(name, 0.0 if lo is None else lo))
